@@ -34,7 +34,7 @@ def graph_check(prop, tier, parts, *, level='model_checking', rule, assumptions=
         opts['seed'] = sd
         # safety caps: on the unchanged tree every quick part reaches its fixpoint far below them;
         # they only bound the run when a change to the code makes the state space explode
-        opts.setdefault('time_cap', 100 if tier == 'quick' else 1200)
+        opts.setdefault('time_cap', 300 if tier == 'quick' else 1200)
         opts.setdefault('max_states', 40000 if tier == 'quick' else 2000000)
         res, info = explore.run_bfs(part['harness'], part['monitors'], prop, opts)
         parents = info.pop('parents')
